@@ -243,11 +243,32 @@ func c17Disruption(c *Check) {
 	if stepFollower != nil {
 		ffi := p.Info(stepFollower)
 		fm := ffi.Sym(stepFollower.Params[1])
+		handlers := map[string]*ssa.Function{
+			"MsgApp":       p.Method("raft", "raft", "handleAppendEntries"),
+			"MsgHeartbeat": p.Method("raft", "raft", "handleHeartbeat"),
+			"MsgSnap":      p.Method("raft", "raft", "handleSnapshot"),
+		}
 		for _, name := range []string{"MsgApp", "MsgHeartbeat", "MsgSnap"} {
 			t := p.ConstVal("raftpb", name)
 			okE, okL := false, false
+			// the arm: instructions under m.Type == t, or (arms merged into one case) whatever
+			// dominates the call of this type's handler
+			var hcalls []ssa.Instruction
+			if h := handlers[name]; h != nil {
+				for _, ci := range p.CallsIn(stepFollower, h) {
+					hcalls = append(hcalls, ci)
+				}
+			}
 			for _, as := range p.ArmStores(stepFollower, func(in ssa.Instruction) bool {
-				return ffi.FactsAt(in).EnumFact(CallSym(getType, fm), t) == 1
+				if ffi.FactsAt(in).EnumFact(CallSym(getType, fm), t) == 1 {
+					return true
+				}
+				for _, hc := range hcalls {
+					if in != hc && ffi.InstrDominates(in, hc) && ffi.FactsAt(in).EnumFact(CallSym(getType, fm), t) != -1 {
+						return true
+					}
+				}
+				return false
 			}) {
 				if as.Field == elapsedF {
 					if z, ok := constInt64(as.Val.C); as.Val.K == KConst && ok && z == 0 {
